@@ -71,7 +71,7 @@ def jobs(tier):
     J.append(conc("2,0,0,0", prog0=prog((K_ADD, 3), (K_DEL, 1)), prog1=prog((K_LOOKUP, 1), (K_LOOKUP, 2)), **lz))
     J.append(conc("1,1,0,0", prog0=prog((K_ADD, 3)), prog1=prog((K_LOOKUP, 0), (K_WALKALL, 0)), settle_end=0, **lz))
     # overlapping resize requests (the target changes while a resize runs): lazy grow + explicit resize, two explicit resizers; lookups meanwhile
-    J.append(conc("2,0,0,0", prog0=prog((K_ADD, 3)), prog1=prog((K_RESIZE, 8)), prog2=prog((K_LOOKUP, 0), (K_LOOKUP, 2)), **lz))
+    J.append(conc("1,0,0,0" if q else "2,0,0,0", workers=16, prog0=prog((K_ADD, 3)), prog1=prog((K_RESIZE, 8)), prog2=prog((K_LOOKUP, 0), (K_LOOKUP, 2)), **lz))
     J.append(conc("2,0,0,0", workers=16, hmap=1, init=2, prog0=prog((K_RESIZE, 8)), prog1=prog((K_RESIZE, 1)), prog2=prog((K_LOOKUP, 1), (K_LOOKUP, 0)), **TWO))
     # the table bound to real flavors (memb with sys_membarrier, bp without): same oracles, real grace periods
     # two adders that both request a lazy grow (both raise the resize target; the loser of the compare-and-swap must notice)
